@@ -8,6 +8,7 @@ use std::time::{Duration, Instant};
 
 use serde_json::json;
 
+use crate::rt::Status;
 use crate::explore::{explore, parse_order, Scenario, ScenarioReport, Violation};
 use crate::rt::{run_once, Ev};
 
@@ -464,6 +465,27 @@ pub fn replay(specs: &[PropSpec], path: &str) -> i32 {
     if r1.log != r2.log || r1.trace != r2.trace {
         eprintln!("replay is not deterministic");
         return 2;
+    }
+    let sig = doc["sig"].as_str().unwrap_or("");
+    if let Status::Livelock(t) = &r1.status {
+        println!("replay: livelock :: the job never terminates - {t}");
+        println!("VIOLATION property={} replay={}", prop, path);
+        return 1;
+    }
+    if s.sometimes.iter().any(|(x, _, _)| x == sig) {
+        // a reachability obligation is a statement about the whole scenario: explore it again
+        let rep = explore(s, 0, 1, None);
+        let mut bad = false;
+        for v in rep.violations.iter().filter(|v| v.sig == sig) {
+            println!("replay: {} :: {}", v.sig, v.message);
+            bad = true;
+        }
+        if bad {
+            println!("VIOLATION property={} replay={}", prop, path);
+            return 1;
+        }
+        println!("replay: the obligation is met ({} executions explored)", rep.executions);
+        return 0;
     }
     match (s.check)(&r1) {
         Ok(_) => {
